@@ -714,7 +714,12 @@ impl Open for VirtualSystem {
             /* is_nonblocking = */ false,
         )));
         let fd = self.create_fd(open_file_description, OpenFlag::Directory.into())?;
-        self.fdopendir(fd)
+        let dir = self.fdopendir(fd);
+        // `VirtualDir` holds a snapshot of the directory entries and does not
+        // close the backing FD when dropped, so the FD is closed here lest it
+        // should leak.
+        self.current_process_mut().close_fd(fd);
+        dir
     }
 }
 
@@ -2714,6 +2719,27 @@ mod tests {
                 UnixString::from("file")
             ]
         );
+    }
+
+    #[test]
+    fn opendir_does_not_leak_fd() {
+        let system = VirtualSystem::new();
+
+        let _ = system
+            .open(
+                c"/dir/file",
+                OfdAccess::WriteOnly,
+                OpenFlag::Create.into(),
+                Mode::ALL_9,
+            )
+            .now_or_never()
+            .unwrap();
+        let fds = system.current_process().fds.clone();
+
+        let mut dir = system.opendir(c"/dir").unwrap();
+        while dir.next().unwrap().is_some() {}
+        drop(dir);
+        assert_eq!(system.current_process().fds, fds);
     }
 
     // TODO Test sigmask
